@@ -310,6 +310,19 @@ def gen_cases(tier, seed, search=False):
         case["gen"] = {"graph": sorted(es), "n": n}
         yield idx, environment(crng, shift_columns(crng, case))
         idx += 1
+    # size ladder: origin rows just above 1024, 4096, 8192 (quick) and more rungs in thorough
+    rungs = [1025, 4097, 8193] if not thorough else [63, 64, 129, 257, 1000, 1023, 1024, 1025, 2049, 4095, 4096,
+                                                      4097, 8191, 8192, 8193, 70001]
+    for ri, n in enumerate(rungs):
+        crng = make_rng(seed, f"C18:tall:{n}")
+        kind = ["csv", "xlsx", "csv"][ri % 3]
+        case = c16.build_case(crng, 2, {(0, 1)}, folders=[""], kinds=[kind, "csv"], root_folder=crng.random() < 0.5,
+                              roots_mode="file", start_pattern=None, tracker="collecting", allow_include=True,
+                              mem=False, rich=True, sheet_pattern=None)
+        case["gen"] = {"tall": n}
+        case["tall"] = n
+        yield idx, tall(case, crng)
+        idx += 1
     for k in range(400 if (thorough or search) else 40):
         crng = make_rng(seed, f"C18:a:{k}")
         n = crng.choice([3, 4, 5])
@@ -369,6 +382,56 @@ def gen_two_loads(tier, seed, search=False):
         second = dict(case, roots=[s2], root_targets=[t2], first_roots=case["roots"],
                       first_root_targets=case["root_targets"])
         yield case, second
+
+
+def gen_shared_dict(tier, seed, search=False):
+    """2-3 consecutive loads over different input sets that are handed the SAME additional_protocol_loaders dict
+    object; the loads differ in root_folder (set / unset / another folder), file-name pattern, sheet-name pattern
+    and CSV separator"""
+    for k in range(300 if (tier == "thorough" or search) else 30):
+        crng = make_rng(seed, f"C18:h:{k}")
+        calls = []
+        for j in range(crng.choice([2, 2, 3])):
+            c = c16.random_case(crng, xlsx_share=0.3, force_mem=True)
+            c["tracker"] = "collecting"
+            c["sep"] = crng.choice([";", ";", ","])
+            c["gen"] = {"history": k, "call": j}
+            calls.append(c)
+        yield calls
+
+
+def shared_dict_loads(calls, base, out, hist_input, want_model, order):
+    """each load is judged against its own ground truth (origins, histories, forest, and the C16 oracle);
+    the caller's dict must stay as it was"""
+    shared = c16.Shared()
+    results = []
+    for j, case in enumerate(calls):
+        o = Outcome()
+        res = one_case(case, base / f"call{j}", o, want_model, order, shared=shared, audit_prefix=str(base))
+        if not shared.intact():
+            o.fail("load_files changed the caller's additional_protocol_loaders dict", case,
+                   sorted(map(str, shared.protocols.keys())), ["mem"], key="caller_dict_modified")
+        for f in o.failures:
+            out.fail(f"load {j + 1} of {len(calls)} sharing one protocol dict: " + f["what"],
+                     dict(hist_input, failing_call=j), f["observed"], f["expected"], key="history:" + f["key"])
+        out.mismatches += [dict(mm, input=dict(hist_input, failing_call=j)) for mm in o.mismatches]
+        if res is None or any(f["key"] != "caller_dict_modified" for f in o.failures):
+            break
+        results.append((case, res))
+    return results
+
+
+def tall(case, crng):
+    """the size ladder: the first sheet of the first file starts after 1025 / 4097 / 8193 … empty rows"""
+    n = case["tall"]
+    sh = case["files"][0]["sheets"][0]
+    blank = [None] if case["files"][0]["kind"] == "xlsx" else [""]
+    sh["rows"] = [list(blank) for _ in range(n)] + sh["rows"]
+    for b in sh["truth"]:
+        b["row"] += n
+    if sh["truth"] and sh["truth"][0]["ty"] == "METADATA":
+        sh["truth"][0]["ty"] = "BLANK"       # key rows that are not at the top of the sheet are no metadata block
+    return case
 
 
 def two_loads(first, second, root, out, want_model, order):
@@ -501,7 +564,7 @@ def oracle_streams(case, streams, out):
                  None, key="streams:merged")
 
 
-def one_case(case, root, out, want_model, order, m=None):
+def one_case(case, root, out, want_model, order, m=None, shared=None, audit_prefix=None):
     """runs the implementation and the oracles; returns the model ops + what to compare them with"""
     from pdtable.io.load import make_location_trees
     from pdtable import BlockType
@@ -511,7 +574,8 @@ def one_case(case, root, out, want_model, order, m=None):
     table = c16.resolve_table(case, m, c16.make_mem({}, [])[1]) if want_model else None
     streams = capture_streams(case, m) if case.get("streams") else None
     env = case.get("after_load")
-    r = c16.run_impl(case, m, after_load=(lambda: env_step(m, env)) if env else None)
+    r = c16.run_impl(case, m, after_load=(lambda: env_step(m, env)) if env else None, shared=shared,
+                     audit_prefix=audit_prefix)
     impl = r.canon
     if r.canon_error is not None:
         out.fail("inspecting the origins of a finished load raised" +
@@ -609,7 +673,7 @@ def run(tier, seed, model_ok, translator, search=False):
             if case.get("streams"):
                 out.count("cases_also_read_as_nameless_streams")
             out.count("cases:" + ("graph" if "graph" in case["gen"] else "aligned" if "aligned" in case["gen"]
-                                  else "random"))
+                                  else "tall" if "tall" in case["gen"] else "random"))
             al = case.get("aligned_includes", [])
             if any(a[0] == b[0] and a[1] != b[1] and a[2] == b[2] for a in al for b in al):
                 out.count("cases_with_include_directives_on_the_same_row_of_two_sheets")
@@ -642,6 +706,24 @@ def run(tier, seed, model_ok, translator, search=False):
             if model_ok and not search:
                 ops += [res["load_op"], res["tree_op"], res["sub_op"]]
                 pend.append((case, res))
+        for k, calls in enumerate(gen_shared_dict(tier, seed, search)):
+            if len(out.failures) >= 25:
+                break
+            hist_input = {"history": calls, "seed": seed, "index": f"h{k}"}
+            results = shared_dict_loads(calls, scratch / f"h{k}", out, hist_input, model_ok and not search, order)
+            shutil.rmtree(scratch / f"h{k}", ignore_errors=True)
+            out.evaluations += len(calls)
+            out.count("loads_sharing_one_protocol_dict", len(calls))
+            out.count("shared_dict_histories:" + "/".join(
+                ("rooted" if c["root_folder"] else "unrooted") for c in calls))
+            if len({c["sep"] for c in calls}) > 1:
+                out.count("shared_dict_histories_with_differing_csv_sep")
+            for c, res in results:
+                if res["ntables"]:
+                    out.nontrivial.add(hash(repr(c["files"]) + repr(c["roots"])))
+                if model_ok and not search:
+                    ops += [res["load_op"], res["tree_op"], res["sub_op"]]
+                    pend.append((c, res))
         for k, (first, second) in enumerate(gen_two_loads(tier, seed, search)):
             if len(out.failures) >= 25:
                 break
@@ -690,12 +772,14 @@ def run(tier, seed, model_ok, translator, search=False):
 
 def replay(rep):
     case = rep.get("input") or {}
-    if "files" not in case:
+    if "files" not in case and "history" not in case:
         return False, "replay file has no input (no-failing-input-found): " + str(rep.get("broken"))[:300]
     scratch = Path(tempfile.mkdtemp(prefix="c18r-")).resolve()
     try:
         o = Outcome()
-        if "first_roots" in case:
+        if "history" in case:
+            shared_dict_loads(case["history"], scratch / "h", o, {"history": case["history"]}, False, "lifo")
+        elif "first_roots" in case:
             first = dict(case, roots=case["first_roots"], root_targets=case["first_root_targets"])
             two_loads(first, case, scratch / "case", o, False, "lifo")
         else:
